@@ -48,7 +48,11 @@ def gen(item, rng, tier):
         elif st == 'overlap' and devs:
             cur = max(base, cur - rng.randrange(1, min(8, s) + 1))
         fill = bytes(rng.getrandbits(8) for _ in range(min(s, 64)))
-        devs.append({'begin': cur, 'end': cur + s, 'fill': fill.hex()})
+        d = {'begin': cur, 'end': cur + s, 'fill': fill.hex()}
+        if rng.random() < 0.08:
+            # the controller window and the device behind it need not have the same size
+            d['ram_size'] = max(1, s + rng.choice([-3, -1, 1, 4, 16]))
+        devs.append(d)
         cur += s
     big = rng.random() < 0.04
     if big:
@@ -87,7 +91,7 @@ def gen(item, rng, tier):
 
 class Model:
     def __init__(self, devs):
-        self.devs = [(d['begin'], d['end'], bytearray(_fill(d))) for d in devs]
+        self.devs = [(d['begin'], d['end'], bytearray(_fill(d))) for d in devs]       # (window begin, window end, device bytes)
 
     def find(self, addr):
         for i, (b, e, _) in enumerate(self.devs):
@@ -97,7 +101,7 @@ class Model:
 
 
 def _fill(d):
-    size = d['end'] - d['begin']
+    size = d.get('ram_size', d['end'] - d['begin'])
     f = bytes.fromhex(d.get('fill') or '') or b'\0'
     return (f * (size // len(f) + 1))[:size]
 
@@ -111,8 +115,8 @@ def position_class(model, addr, size):
         return 'above-4G-hole' if addr > 0xFFFFFFFF else 'hole'
     b, e, _ = model.devs[i]
     over = sum(1 for bb, ee, _ in model.devs if bb <= addr < ee) > 1
-    if addr + size > e:
-        return 'straddle-end'
+    if addr + size > e or (addr - b) + size > len(model.devs[i][2]):
+        return 'straddle-end' if (addr - b) < len(model.devs[i][2]) else 'beyond-device-in-window'
     if over:
         return 'overlap'
     if addr > 0xFFFFFFFF:
@@ -139,12 +143,12 @@ def run(case):
     model = Model(case['devices'])
     rams = []
     for d in case['devices']:
-        if case.get('via_add_memory'):
+        if case.get('via_add_memory') and 'ram_size' not in d:
             # the library's own construction path (what from_memory_list() does for a configuration file)
             arm.mem.add_memory('RAM', d['begin'], d['end'])
             ram = arm.mem.memories[-1].mem
         else:
-            ram = RAM(d['end'] - d['begin'])
+            ram = RAM(d.get('ram_size', d['end'] - d['begin']))
             arm.mem.memories.append(MemoryController(ram, d['begin'], d['end']))
         if d.get('fill'):
             f = _fill(d)
@@ -169,7 +173,7 @@ def run(case):
                 diff_at = None if same else next(x for x in list(range(64)) + list(range(lo, e - b)) if (ram.memory_array[x] if x < len(ram.memory_array) else 0) != mb[x])
             else:
                 same = bytes(ram.memory_array) == bytes(mb)
-                diff_at = None if same else next(x for x in range(e - b) if ram.memory_array[x] != mb[x])
+                diff_at = None if same else next((x for x in range(min(len(mb), len(ram.memory_array))) if ram.memory_array[x] != mb[x]), 0)
             if not same:
                 k = diff_at
                 cls = 'wrong_bytes_written' if (j == touched or touched == -1) else 'spill_into_other_device'
@@ -241,7 +245,8 @@ def run(case):
         touched = []
         for paddr, psize, pval, pgot in parts:
             pi = model.find(paddr)
-            pstraddle = pi is not None and paddr + psize > model.devs[pi][1]
+            # 'straddle' is judged against the device behind the window (its size may differ from the window's)
+            pstraddle = pi is not None and (paddr - model.devs[pi][0]) + psize > len(model.devs[pi][2])
             touched.append(pi)
             if op['op'] == 'w':
                 if pi is not None:
@@ -250,9 +255,9 @@ def run(case):
                     off = paddr - b
                     if not pstraddle:
                         mb[off:off + psize] = data
-                    else:
+                    elif off < len(mb):
                         # weak rule: the in-device tail may be old or new data; adopt what the device holds
-                        mb[off:e - b] = rams[pi].memory_array[off:e - b]
+                        mb[off:len(mb)] = rams[pi].memory_array[off:len(mb)]
             else:
                 if pi is None:
                     if pgot != 0:
